@@ -951,14 +951,7 @@ func concurrentSplice(res *core.Result, r *rand.Rand, caps []*capture, idV, spar
 	}
 }
 
-func parallel(n int, fn func(w int)) {
-	var wg sync.WaitGroup
-	for w := 0; w < n; w++ {
-		wg.Add(1)
-		go func(w int) { defer wg.Done(); fn(w) }(w)
-	}
-	wg.Wait()
-}
+func parallel(n int, fn func(w int)) { core.Parallel(n, fn) }
 
 func run(c *core.Ctx) {
 	res := c.Res
